@@ -49,6 +49,9 @@ type IterVal struct {
 	str    *Term
 	pos    *Cell // string iteration position
 	n      int   // Next counter
+	count  *Cell // ghost: number of entries delivered so far (map iteration)
+	dom0   *Term // domain and length of the map when the iteration started
+	len0   *Term
 }
 
 type FuncVal struct {
@@ -117,6 +120,10 @@ type FnCtx struct {
 	specDepth  map[*ssa.Function]int
 	specSeen   map[string]bool
 	lastNext   *nextInfo
+	layers     map[int]*layerInfo
+	layerInst  map[[2]int]bool
+	curFrame   *Frame
+	pendingBindings []SymVal
 }
 
 type writeLog struct {
@@ -124,10 +131,11 @@ type writeLog struct {
 	heaps map[string][]*Term // heap -> object ids written (nil entry = whole heap)
 	whole map[string]bool
 	wm    bool
+	alloc map[int]bool // object ids allocated while logging
 }
 
 func newWriteLog() *writeLog {
-	return &writeLog{cells: map[*Cell]bool{}, heaps: map[string][]*Term{}, whole: map[string]bool{}}
+	return &writeLog{cells: map[*Cell]bool{}, heaps: map[string][]*Term{}, whole: map[string]bool{}, alloc: map[int]bool{}}
 }
 
 func (c *FnCtx) addFact(st *State, f *Term) {
@@ -292,4 +300,63 @@ func (c *FnCtx) merge(ins []*State) *State {
 	}
 	out.wm = pick(func(s *State) (*Term, bool) { return s.wm, true })
 	return out
+}
+
+// ---- layered heaps: a havocked heap that is known to agree with an older heap below a watermark ----
+
+type layerInfo struct {
+	wm     *Term   // objects with id < wm ...
+	old    *Term   // ... have the same content as in this heap
+	except []*Term // ... except these objects
+}
+
+func (c *FnCtx) hget(st *State, name string, sort Sort, obj *Term) *Term {
+	h := c.heap(st, name, sort)
+	c.frameFacts(h, obj)
+	return c.eng.ts.Select(h, obj)
+}
+
+func (c *FnCtx) gget(st *State, name string, obj *Term) *Term {
+	return c.hget(st, name, ghostHeapSort(name), obj)
+}
+
+// frameFacts instantiates, for a read of heap term h at idx, the agreement of every layered base symbol
+// under h with its older heap (quantifier-free instance of the frame axiom).
+func (c *FnCtx) frameFacts(h, idx *Term) {
+	if len(c.layers) == 0 {
+		return
+	}
+	ts := c.eng.ts
+	seen := map[int]bool{}
+	var walk func(t *Term)
+	walk = func(t *Term) {
+		if seen[t.id] {
+			return
+		}
+		seen[t.id] = true
+		if t.kind == kApp && t.op == "store" {
+			walk(t.args[0])
+			return
+		}
+		if t.kind == kApp && t.op == "ite" {
+			walk(t.args[1])
+			walk(t.args[2])
+			return
+		}
+		if li, ok := c.layers[t.id]; ok {
+			key := [2]int{t.id, idx.id}
+			if !c.layerInst[key] {
+				c.layerInst[key] = true
+				conds := []*Term{ts.Lt(idx, li.wm)}
+				for _, e := range li.except {
+					conds = append(conds, ts.Not(ts.Eq(idx, e)))
+				}
+				f := ts.Implies(ts.And(conds...), ts.Eq(ts.Select(t, idx), ts.Select(li.old, idx)))
+				c.facts = append(c.facts, f)
+				c.triggers = append(c.triggers, nil)
+			}
+			walk(li.old)
+		}
+	}
+	walk(h)
 }
